@@ -16,7 +16,7 @@ CLOSURE = [
     {'fn': 'BatchExplainer.explain_many_original', 'clauses': ['one_full_permutation', 'perm_onto', 'perm_distinct', 'perm_names',
                                                                'background_from_whole_data', 'xs_dom', 'xs_val']},
     # D2 / D3: one uniform row over the whole storage view per sample (joint) / per feature (product)
-    {'fn': 'Imputer._sample_marginals', 'clauses': ['draw_full_range', 'row_range', 'same_row', 'count:random.randrange', 'keys']},
+    {'fn': 'Imputer._sample_marginals', 'clauses': ['draw_full_range', 'row_range', 'same_row', 'count:uniform_int', 'keys']},
     {'fn': 'Imputer._sample_product_marginals', 'clauses': ['draw_full_range', 'from_rows', 'keys']},
     {'fn': 'Imputer._sample', 'clauses': ['joint_same_row', 'from_rows', 'keys']},
     {'fn': 'MarginalImputer.impute', 'clauses': ['from_background', 'count', 'count:model', 'one_sample_per_prediction']},
@@ -65,94 +65,64 @@ def _shapley(names, value):
     return {k: v / math.factorial(d) for k, v in phi.items()}
 
 
-class _Script:
-    def __init__(self):
-        self.perm = None
-        self.rows = None
-        self.log = []
-        self.over = False
-
-    def permutation(self, n):
-        import numpy as np
-        self.log.append(('perm', n))
-        return np.array(self.perm) if isinstance(n, int) else [n[i] for i in self.perm]
-
-    def randrange(self, n):
-        self.log.append(('randrange', n))
-        v = next(self.rows, None)
-        if v is None:
-            self.over = True        # more row indices drawn than the sampling strategy calls for
-            return 0
-        return v % n
-
-    def randint(self, a, b):
-        self.log.append(('randint', a, b))
-        return a + next(self.rows) % (b - a + 1)
-
-
-def _expected_batch(names, rows, x, y, mode, R_draws, strategy='joint'):
-    """exact expectation of the per-feature value of one explained observation by enumerating every order and every row choice"""
-    import numpy as np
-    import random as pyrandom
-    from ixai.explainer import BatchSage
-    from ixai.storage import BatchStorage
-    d = len(names)
-    sc = _Script()
-    saved = (np.random.permutation, pyrandom.randrange, pyrandom.randint)
-    np.random.permutation, pyrandom.randrange, pyrandom.randint = sc.permutation, sc.randrange, sc.randint
+def _expected(run, names):
+    """exact expectation of the per-feature values returned by run() over the library's own draws (every permutation and
+    every row choice, whatever primitives the code uses: props/_util.outcome_distribution)"""
+    from props._util import outcome_distribution
+    dist = outcome_distribution(lambda: tuple(sorted(((str(k), k, Fraction(v)) for k, v in run().items()), key=lambda t: t[0])), 1, exact=True)
     tot = {k: Fraction(0) for k in names}
-    n = 0
-    try:
-        for perm in itertools.permutations(range(d)):
-            for draws in itertools.product(range(len(rows)), repeat=R_draws):
-                st = BatchStorage(store_targets=True)
-                for r in rows:
-                    st.update(r, 0)
-                from ixai.imputer import MarginalImputer
-                ex = BatchSage(_model, list(names), _loss, n_inner_samples=1, storage=st,
-                               imputer=MarginalImputer(_model, strategy, st))
-                sc.perm, sc.rows = list(perm), iter(draws)
-                if mode == 'many':
-                    out = ex.explain_many([x], [y], verbose=False)
-                else:
-                    out = ex.explain_many_original(rows + [x], [0] * len(rows) + [y], verbose=False)
-                for k in names:
-                    tot[k] += out[k]
-                n += 1
-    finally:
-        np.random.permutation, pyrandom.randrange, pyrandom.randint = saved
-    if sc.over:
-        raise RuntimeError('more random.randrange draws than one per imputed feature (product) / one per sample (joint)')
-    return {k: v / n for k, v in tot.items()}, sc.log
+    total = Fraction(0)
+    for outcome, w in dist.items():
+        total += w
+        for _, k, v in outcome:
+            tot[k] += w * v
+    if total != 1:
+        raise RuntimeError(f'outcome probabilities sum to {total}')
+    return tot, len(dist)
 
 
 def BOUNDED(tier, seed):
     warnings.simplefilter('ignore')
+    from ixai.explainer import BatchSage
+    from ixai.storage import BatchStorage
+    from ixai.imputer import MarginalImputer
     rng = random.Random(seed)
     fails, evals, distinct = [], 0, set()
+
+    def close(a, b):
+        # BatchSage accumulates in floats (its sums start at 0.): compare up to rounding
+        return abs(float(a) - float(b)) <= 1e-9 * (1 + abs(float(b)))
     for d in (2, 3):
         names = ['a', 'b', 'c'][:d]
         rows = [{k: Fraction(rng.randint(-2, 2)) for k in names} for _ in range(2)]
         x = {k: Fraction(rng.randint(-2, 2) + 3) for k in names}
         y = 1
-        # SAGE with the marginal imputer (joint): value(S) = - E_row L(y, M(x_S, row_notS)); baseline loss of the mean prediction cancels
+        base = _loss(y, _model(x))           # single explained observation: the mean prediction is M(x)
+
+        def run_many(strategy):
+            def run():
+                st = BatchStorage(store_targets=True)
+                for r in rows:
+                    st.update(r, 0)
+                ex = BatchSage(_model, list(names), _loss, n_inner_samples=1, storage=st, imputer=MarginalImputer(_model, strategy, st))
+                return ex.explain_many([x], [y], verbose=False)
+            return run
+        # joint strategy: ONE uniform row for all imputed features: value(S) = - E_row L(y, M(x_S, row_notS)), w(empty) = - L(y, mean prediction)
         def v(S):
             return -sum(_loss(y, _model({k: (x[k] if k in S else r[k]) for k in names})) for r in rows) / len(rows)
-        sh = _shapley(names, v)
-        exp, log = _expected_batch(names, rows, x, y, 'many', d)
-        evals += 1
-        distinct.add(('sage_many', d))
-        # the first step starts from the loss of the mean prediction (a constant), the game's empty-coalition value is E L(all imputed):
-        # compare differences through efficiency-free form: contributions of steps 2..d are Shapley-like; use the full identity instead
-        base = _loss(y, _model(x))           # single observation: mean prediction = M(x)
-        adj = {k: exp[k] for k in names}
-        # expected contribution of f = Shapley value of the game w(S) = -E L(...) for |S|>=1 and w(empty) = -L(y, mean prediction)
+
         def w(S):
             return v(S) if S else -base
         shw = _shapley(names, w)
-        # BatchSage accumulates in floats (its sums start at 0.): compare up to rounding
-        if any(abs(float(adj[k]) - float(shw[k])) > 1e-9 * (1 + abs(float(shw[k]))) for k in names):
-            fails.append({'key': 'sage_unbiased', 'summary': f'd={d}: expected SAGE contributions {adj} != Shapley values {shw} (enumerating all orders and rows)'})
+        evals += 1
+        distinct.add(('sage_many', d))
+        try:
+            exp, n_out = _expected(run_many('joint'), names)
+            if any(not close(exp[k], shw[k]) for k in names):
+                fails.append({'key': 'sage_unbiased', 'summary': f'd={d}: expected SAGE contributions { {k: float(v) for k, v in exp.items()} } != '
+                              f'Shapley values { {k: float(v) for k, v in shw.items()} } (all orders and row choices enumerated through the real class)'})
+        except Exception as ex:   # noqa
+            fails.append({'key': 'sage_unbiased', 'summary': f'd={d}, joint strategy: enumeration of the draws failed: {ex!r}'})
         # product strategy: an INDEPENDENT uniform row per imputed feature
         def vp(S):
             out = [f for f in names if f not in S]
@@ -170,45 +140,48 @@ def BOUNDED(tier, seed):
         evals += 1
         distinct.add(('sage_product', d))
         try:
-            expp, _ = _expected_batch(names, rows, x, y, 'many', d * (d - 1) // 2, strategy='product')
-        except RuntimeError as ex:
-            fails.append({'key': 'draw_count_product', 'summary': f'd={d}, product strategy: {ex}'})
-            continue
-        if any(abs(float(expp[k]) - float(shp[k])) > 1e-9 * (1 + abs(float(shp[k]))) for k in names):
-            fails.append({'key': 'sage_unbiased_product', 'summary': f'd={d}, product strategy: expected SAGE contributions '
-                          f'{ {k: float(v) for k, v in expp.items()} } != Shapley values of the product-marginal game '
-                          f'{ {k: float(v) for k, v in shp.items()} }'})
-    # original mode: background rows uniform over the whole data set
+            expp, _ = _expected(run_many('product'), names)
+            if any(not close(expp[k], shp[k]) for k in names):
+                fails.append({'key': 'sage_unbiased_product', 'summary': f'd={d}, product strategy: expected SAGE contributions '
+                              f'{ {k: float(v) for k, v in expp.items()} } != Shapley values of the product-marginal game '
+                              f'{ {k: float(v) for k, v in shp.items()} }'})
+        except Exception as ex:   # noqa
+            fails.append({'key': 'sage_unbiased_product', 'summary': f'd={d}, product strategy: enumeration of the draws failed: {ex!r}'})
+    # original mode: background rows uniform over the WHOLE data set (the explained observation included), for every observation
     names = ['a', 'b']
-    rows = [{'a': Fraction(0), 'b': Fraction(1)}, {'a': Fraction(2), 'b': Fraction(-1)}]
-    x = {'a': Fraction(3), 'b': Fraction(4)}
-    y = 1
-    data = rows + [x]
-    import numpy as np
-    import random as pyrandom
-    from ixai.explainer import BatchSage
-    sc = _Script()
-    saved = (np.random.permutation, pyrandom.randrange, pyrandom.randint)
-    np.random.permutation, pyrandom.randrange, pyrandom.randint = sc.permutation, sc.randrange, sc.randint
+    data = [{'a': Fraction(0), 'b': Fraction(1)}, {'a': Fraction(2), 'b': Fraction(-1)}, {'a': Fraction(3), 'b': Fraction(4)}]
+    ys = [0, 2, 1]
+    if tier == 'quick':
+        data, ys = data[:2] + [data[2]], ys
+    preds = [_model(r)['output'] for r in data]
+    mean_pred = {'output': sum(preds) / len(preds)}
+    ref = {k: Fraction(0) for k in names}
+    for xi, yi in zip(data, ys):
+        def vo(S, xi=xi, yi=yi):
+            if not S:
+                return -_loss(yi, mean_pred)
+            return -sum(_loss(yi, _model({k: (xi[k] if k in S else r[k]) for k in names})) for r in data) / len(data)
+        sh = _shapley(names, vo)
+        for k in names:
+            ref[k] += sh[k] / len(data)
+    evals += 1
+    distinct.add(('original_mode',))
     try:
-        bounds = set()
-        for perm in itertools.permutations(range(2)):
-            sc.perm, sc.rows = list(perm), itertools.cycle([0])
-            ex = BatchSage(_model, names, _loss, n_inner_samples=1)
-            sc.log.clear()
-            ex.explain_many_original(data, [0, 0, y], verbose=False)
-            bounds |= {(e[1], e[2]) for e in sc.log if e[0] == 'randint'}
-        evals += 1
-        distinct.add(('original_range',))
-        if bounds != {(0, len(data) - 1)}:
-            fails.append({'key': 'original_background_range', 'summary': f'original mode draws background rows with random.randint bounds {sorted(bounds)} '
-                          f'instead of (0, {len(data) - 1}) only: rows are not uniform over the whole data set', 'observed': sorted(bounds)})
-    finally:
-        np.random.permutation, pyrandom.randrange, pyrandom.randint = saved
+        def run_orig():
+            ex = BatchSage(_model, list(names), _loss, n_inner_samples=1)
+            return ex.explain_many_original(list(data), list(ys), verbose=False)
+        expo, n_out = _expected(run_orig, names)
+        if any(not close(expo[k], ref[k]) for k in names):
+            fails.append({'key': 'original_background_range', 'summary': f'original mode: expected values { {k: float(v) for k, v in expo.items()} } != '
+                          f'average Shapley values with background rows uniform over the whole data set { {k: float(v) for k, v in ref.items()} }',
+                          'observed': {k: float(v) for k, v in expo.items()}})
+    except Exception as ex:   # noqa
+        fails.append({'key': 'original_background_range', 'summary': f'original mode: enumeration of the draws failed: {ex!r}'})
     return [{'name': 'exact_expectation_enumeration', 'evaluations': evals, 'distinct_nontrivial': max(2, len(distinct)),
-             'rule': 'scripted RNG plays every permutation x every row combination (d in {2,3}, 2 stored rows, n_inner = 1) through the real '
-                     'BatchSage; the exact expected contributions are compared with an independently computed Shapley value; original mode: '
-                     'the randint bounds of every background draw are recorded', 'bound': 'd <= 3, 2 rows', 'failures': fails}]
+             'rule': 'every outcome of the library\'s own draws (feature orders, row choices - whatever primitives the code uses) is enumerated '
+                     'through the real BatchSage with exact weights (d in {2,3}, 2 stored rows, n_inner = 1; original mode: 3 observations, d = 2); '
+                     'the exact expected contributions are compared with independently computed Shapley values of the joint / product / '
+                     'whole-data-set games', 'bound': 'd <= 3, <= 3 rows', 'failures': fails}]
 
 
 def SEARCH(ob, seed):
